@@ -432,18 +432,23 @@ func gen(c *ex.Ctx) {
 	bumpEnd := strings.Contains(runSrc, "p.mu.Lock() p.escGen++ p.mu.Unlock() p.emit(EOF{}) close(p.sequences)")
 	plainLoop := strings.Contains(runSrc, "r := p.readRune() p.mu.Lock() p.state = anywhere(r, p)")
 	plainEnd := strings.Contains(runSrc, "p.emit(EOF{}) close(p.sequences) p.closed <- true")
+	// An unrecognised run() is not an extraction failure (the driver must still build so that the
+	// harness can look for a failing input): it is a flag that `gen_lifecycle_constants` requires.
+	runKnown := "true"
 	if !plainEnd || !(bumpLoop || plainLoop) {
-		c.Fail("Parser.run: loop shape not recognised")
-		return
+		runKnown = "false"
+	}
+	if !strings.Contains(runSrc, "outer: for { select { case <-p.close: break outer default:") ||
+		!strings.Contains(runSrc, "if p.state == nil { p.mu.Unlock() break outer }") {
+		runKnown = "false"
 	}
 	if guarded == "true" && !(bumpLoop && bumpEnd) {
-		c.Fail("Parser.run: guarded timer callback but escGen is not bumped under the mutex before each transition and before EOF")
-		return
+		runKnown = "false"
 	}
 	if guarded == "false" && (bumpLoop || bumpEnd || strings.Contains(runSrc, "escGen")) {
-		c.Fail("Parser.run: escGen used but the timer callback does not check it")
-		return
+		runKnown = "false"
 	}
+	fmt.Fprintf(&sb, "/-- Parser.run has the shape the model knows (read; lock; [escGen++;] anywhere; … [lock; escGen++; unlock;] emit(EOF); close; closed<-true), consistent with the timer callback -/\ndef runLoopRecognised : Bool := %s\n\n", runKnown)
 	fmt.Fprintf(&sb, "/-- delay of the Escape-key timer in ms; its callback is `emit(C0 0x1B); lock; state = ground; [ignoreST = false;] unlock` (shape checked by the extractor) -/\ndef escDelayMs : Nat := %s\n/-- the timer callback also resets ignoreST -/\ndef timerClearsIgnoreST : Bool := %s\n/-- the timer callback runs under the mutex and returns at once if the generation moved on (run() bumps it under the mutex before every transition and before EOF) -/\ndef timerGuarded : Bool := %s\n\n", timerDelay, clears, guarded)
 
 	// facts about csiDispatch: separators, base, digit offset
